@@ -380,6 +380,8 @@ public:
     Command* decl;
     const Token& startTok;
     bool shellEscapeInAndOut;
+    /// The rule variables currently being expanded (to diagnose cycles).
+    SmallVector<StringRef, 8> activeRuleVariables;
   };
   static void lookupBuildParameter(void* userContext, StringRef name,
                                    raw_ostream& result) {
@@ -421,11 +423,22 @@ public:
     }
     auto it2 = decl->getRule()->getParameters().find(name);
     if (it2 != decl->getRule()->getParameters().end()) {
+      // Diagnose a rule variable which refers to itself (directly or through
+      // other rule variables) instead of recursing without bound.
+      for (const auto& active: context->activeRuleVariables) {
+        if (active == name) {
+          error("cycle in rule variables during evaluation of '" +
+                name.str() + "'", context->startTok);
+          return;
+        }
+      }
+      context->activeRuleVariables.push_back(name);
       evalString(context, it2->second, result, lookupBuildParameter,
                  /*Error=*/ [&](const std::string& msg) {
                    error(msg + " during evaluation of '" + name.str() + "'",
                          context->startTok);
                  });
+      context->activeRuleVariables.pop_back();
       return;
     }
       
